@@ -424,7 +424,10 @@ def gen_history(r, plan=None, n=None, noise_ops=True):
                 bad = r.choice([dict(op="bits", b=r.choice([3, 65, 0])),
                                 dict(op="signal", xs=[hexf(float(v)) for v in range(n + 1)], frame="float64")])
                 pre.insert(r.randrange(len(pre) + 1), bad)
-        ops += pre + [call_op(r, e["kind"], e["bits"], e["range"][1])]
+        call = call_op(r, e["kind"], e["bits"], e["range"][1])
+        if "data_type" in e and call["op"] == "simple":
+            call["data_type"] = e["data_type"]
+        ops += pre + [call]
     return dict(kind="hist", bits=e0["bits"], vmin=hexf(e0["range"][0]), vmax=hexf(e0["range"][1]),
                 xs=[hexf(v) for v in frames[0][0]], frame=frames[0][1], ops=ops)
 
@@ -456,6 +459,25 @@ def gen_histories(ctx: Ctx, r, n_random, all_kind_pairs):
                              replace=r.random() < 0.3)]
                 hs.append(gen_history(r, plan, noise_ops=False))
                 c += 1
+    # exactly one thing changes between two calls of the same model at the same resolution: the voltage range ...
+    for f in fam:
+        for _ in range(6 if all_kind_pairs else 2):
+            bits = r.randrange(4, 65)
+            rv = r.choice(HIST_RANGES)
+            rv2 = r.choice([x for x in HIST_RANGES if x != rv])
+            hs.append(gen_history(r, [dict(bits=bits, range=rv, kind=kind(f)),
+                                      dict(bits=bits, range=rv2, kind=kind(f), replace=r.random() < 0.3)], noise_ops=False))
+    # ... or the data_type argument of simple_adc (given / not given / another width), the image left in place
+    for _ in range(9 if all_kind_pairs else 3):
+        bits = r.randrange(4, 65)
+        need = 8 if bits <= 8 else 16 if bits <= 16 else 32 if bits <= 32 else 64
+        ws = [None] + [w for w in (8, 16, 32, 64) if w >= need]
+        w1 = r.choice(ws)
+        w2 = r.choice([w for w in ws if w != w1] or [None])
+        rv = r.choice(HIST_RANGES)
+        hs.append(gen_history(r, [dict(bits=bits, range=rv, kind="simple", data_type=w1),
+                                  dict(bits=bits, range=rv, kind="simple", data_type=w2),
+                                  dict(bits=bits, range=rv, kind="simple", data_type=None)], noise_ops=False))
     for _ in range(n_random):
         hs.append(gen_history(r))
     return hs
